@@ -292,6 +292,47 @@ def check_host_failures(kinds, in_function, nested, debug):
         raise Violation('log is %r, expected %r' % (got_log, exp_log), d, 'host-log' + ('-debug' if debug else '-nodebug'))
 
 
+# ---- (g) the host's fetch function fails for some resources -----------------------------------------------------------------------
+
+def check_fetch(items, as_objects, debug, with_url_fn):
+    """items: [(resource name, 'text' | 'none' | exception type name)]. systemFetch of the array: each element is the text or null, a
+    failing fetchFn is a null for THAT element only, reported through logFn in debug mode; execution continues."""
+    d = {'kind': 'fetch', 'items': items, 'as_objects': as_objects, 'debug': debug, 'with_url_fn': with_url_fn}
+    behaviour = {}
+    for i, (name, how) in enumerate(items):
+        behaviour.setdefault(name, how)
+    calls = []
+
+    def fetch(request):
+        url = request['url']
+        calls.append(url)
+        how = behaviour.get(url[len('base/'):] if with_url_fn and url.startswith('base/') else url, 'none')
+        if how == 'text':
+            return 'text of ' + url
+        if how == 'none':
+            return None
+        raise {'CustomError': CustomError}.get(how) or getattr(__import__('builtins'), how)('cannot fetch ' + url)
+    urls = [({'url': n} if as_objects and i % 2 else n) for i, (n, _) in enumerate(items)]
+    log = []
+    opts = {'globals': {'uu': urls}, 'logFn': log.append, 'fetchFn': fetch, 'maxStatements': 100}
+    if debug:
+        opts['debug'] = True
+    if with_url_fn:
+        opts['urlFn'] = lambda u: 'base/' + u
+    model = impl.bs.parse_script("rr = systemFetch(uu)\nsystemLog('after')\nreturn rr")
+    res = contained('systemFetch of %d resources' % len(items), lambda: impl.bs.execute_script(model, opts), d)
+    prefix = 'base/' if with_url_fn else ''
+    want = [('text of ' + prefix + n) if behaviour[n] == 'text' else None for n, _ in items]
+    if res != ('ok', want):
+        raise Violation('systemFetch(%r) with fetchFn behaviours %r returned %r, expected %r' % ([n for n, _ in items], [h for _, h in items], res, want), d,
+                        'fetch-result')
+    want_log = ['BareScript: Function "systemFetch" failed for resource "%s%s"' % (prefix, n) for n, _ in items if behaviour[n] != 'text'] if debug else []
+    if [m for m in log if m != 'after'] != want_log or 'after' not in log:
+        raise Violation('systemFetch log is %r, expected %r followed by the next statement' % (log, want_log), d, 'fetch-log')
+    if calls != [prefix + n for n, _ in items]:
+        raise Violation('fetchFn was called for %r, expected %r' % (calls, [prefix + n for n, _ in items]), d, 'fetch-calls')
+
+
 # ---- (f) what library functions return, pushed through every operator ------------------------------------------------------------
 
 RESULT_USES = ["'' + vv", "vv + ''", 'vv == vv', 'vv != ww', 'vv < ww', 'vv >= vv', '!vv', '-vv', 'vv && 1', 'vv || 0', 'vv + 1', 'vv - ww', 'vv * 2', 'vv / 2', 'vv % 2', 'vv ** 2',
@@ -488,6 +529,14 @@ def run_shard(ctx, spec):
                 continue
             ctx.case(digest([sh, u, n, dbg, ve]), n >= 400 or sh == 'unbounded', ['recursion:' + sh, 'recursion-outcome:' + r[0]], {'shape': sh, 'depth': n})
         return
+    if spec['kind'] == 'results' and spec['k'] == 0:
+        def fprop(items, as_objects, debug, with_url_fn):
+            check_fetch(items, as_objects, debug, with_url_fn)
+            ctx.case(digest([items, as_objects, debug, with_url_fn]), any(h != 'text' for _, h in items) and any(h == 'text' for _, h in items),
+                     ['fetch', 'fetch-failures' if any(h not in ('text', 'none') for _, h in items) else 'fetch-no-exception'], {'items': items})
+        item = st.tuples(st.sampled_from(['a.txt', 'b.txt', 'c/d.json', 'x', 'y z', '']), st.sampled_from(['text', 'text', 'none', 'OSError', 'KeyError', 'CustomError', 'MemoryError',
+                                                                                                             'RecursionError', 'ValueError']))
+        run_hypothesis(ctx, fprop, [st.lists(item, min_size=1, max_size=6), st.booleans(), st.booleans(), st.booleans()], 600 if ctx.tier == 'quick' else 10000, salt=95)
     if spec['kind'] == 'results':
         def rprop(c, use, pick, debug):
             call, g = c
@@ -587,6 +636,8 @@ def replay(detail):
         check_recursion(detail['shape'], detail['use'], detail['n'], detail['debug'], detail['via_expression'])
     elif k == 'host':
         check_host_failures(detail['kinds'], detail['in_function'], detail['nested'], detail['debug'])
+    elif k == 'fetch':
+        check_fetch([tuple(x) for x in detail['items']], detail['as_objects'], detail['debug'], detail['with_url_fn'])
     elif k == 'result':
         check_result_operators(detail['call'], detail['globals'], detail['use'], detail['pick'], detail['debug'])
     else:
